@@ -43,6 +43,38 @@ def gen(rng, tier):
         yield case
 
 
+def gen_fine(rng, tier):
+    """what the integer-cM model cannot carry: fine-scale maps (marker steps of 1e-6 … 1e-4 cM next to ordinary ones, so that
+    cM ends below 1e-4 are written) and models whose fractions are repeating decimals cut after seven digits (rows that
+    sum to 1 only to within 1e-7, which the validator accepts)"""
+    n = 12 if tier == "quick" else 200
+    for i in range(n):
+        chroms = [str(c) for c in sorted(rng.sample(range(1, 23), rng.randint(1, 3)))] + (["X"] if rng.random() < 0.3 else [])
+        maps = {}
+        for c in chroms:
+            nm = rng.randint(2, 8)
+            bps = sorted(rng.sample(range(100, 100000), nm))
+            tiny = rng.random() < 0.6
+            cm, cms = 0.0, []
+            for k in range(nm):
+                if k:
+                    cm += rng.choice([0.0, 2e-05, 3e-06, 4e-05, 1.5e-05]) if tiny else rng.choice([0.0, 0.5, 7.25, 40.0, 150.0])
+                cms.append(float(repr(round(cm, 9))))
+            maps[c] = list(zip(bps, cms))
+        model = SD.gen_model(rng, max_lines=rng.randint(1, 3))
+        nsamp, pops, lines = model
+        k = len(pops)
+        if rng.random() < 0.7:
+            li = rng.randrange(len(lines))
+            g, fr = lines[li]
+            if fr[0] in (0.0,):
+                w = [rng.randint(1, 3) for _ in range(k)]
+                while sum(w) not in (3, 6, 7, 9):
+                    w = [rng.randint(1, 3) for _ in range(k)]
+                lines[li] = (g, [0.0] + [float(f"{x / sum(w):.7f}") for x in w])  # 0.3333333, 0.6666667, 0.1428571, 0.2222222 …
+        yield {"model": (nsamp, pops, lines), "chroms": chroms, "maps": maps, "region": None, "popsize": max(10, 2 * nsamp), "seed": rng.randrange(2**32), "via_cli": i % 2 == 0, "plain_api": i % 2 == 1, "prelude": None}
+
+
 def impl(case):
     """simulate_gt + write_breakpoints (or the CLI with --only_breakpoint); observation = the .bp text and what the
     readers make of it"""
@@ -74,6 +106,13 @@ def impl(case):
         r = CliRunner().invoke(main, args, catch_exceptions=True)
         if r.exit_code != 0:
             return {"error": "cli_exit", "msg": (str(r.exception) or r.output)[-200:]}
+        bp_path = str(out) + ".bp"
+    elif case.get("plain_api"):
+        try:
+            ns, pd, bps = sg.simulate_gt(str(d / "model.dat"), str(d / "maps"), chroms, case["region"], case["popsize"], SD.silent_log(), case["seed"])
+            sg.write_breakpoints(ns, pd, bps, str(out), SD.silent_log())
+        except Exception as e:  # noqa
+            return {"error": "api_raised", "msg": type(e).__name__ + ": " + str(e)[:200]}
         bp_path = str(out) + ".bp"
     else:
         r = SD.instrumented_simulate(str(d / "model.dat"), str(d / "maps"), chroms, case["region"], case["popsize"], case["seed"])
@@ -259,6 +298,18 @@ CHECK = Check(
             teardown=teardown,
             nontrivial=lambda c, o: C.jdump(c) if isinstance(o, dict) and "lines" in o and len(o["lines"]) > 2 * c["model"][0] * (1 + (1 if c["region"] else len(c["chroms"]))) else None,
             rule="the model/map/region generator of C01 (1-4 generation lines incl. zero fractions and pulses, 2-4 source populations, 1-4 chromosomes incl. X, 2-10 markers, optional region, 1-5 samples), through simulate_gt + write_breakpoints (a third of the whole-chromosome cases after an earlier --region simulation on the same map files in the same process; every 3rd case through the `simgenotype --only_breakpoint` CLI, with --popsize values below, at and above twice the sample count); the .bp text is checked clause by clause (order of chromosomes, strictly increasing bp ends, sentinel, non-decreasing cM, labels subset of contributing populations, Sample_i_1/_2 framing), read with Breakpoints.load and karyogram.GetHaplotypeBlocks, and compared with the rendering of the recorded simulated haplotypes drawn by the recorded index tape; for instrumented runs the decoded tapes of all generations are run through Plan.simulateAll (the function C02.every_haplotype_tiles / cm_never_decreases / labels_are_sources are about) and the file must be the rendering of the model's final generation at the drawn indices; the map hypotheses of cm_never_decreases (events close at map markers) are checked on every recorded tape; non-trivial = some haplotype has a recombination breakpoint",
+        ),
+        Section(
+            name="fine_scale_maps_and_cut_fractions",
+            theorems=["C02.write_framing", "C02.bp_reader_accepts"],
+            gen=gen_fine,
+            impl=impl,
+            oracle=oracle,
+            describe=lambda c, o: ["cli" if c["via_cli"] else "api", "some-cM-end-below-1e-4" if isinstance(o, dict) and any(len(l) == 4 and 0 < float(l[3]) < 1e-4 for l in o.get("lines", [])) else "all-cM-ends-ordinary", "row-sums-to-1-within-1e-7-only" if any(abs(sum(fr) - 1) > 1e-12 for _, fr in c["model"][2]) else "rows-sum-to-1"],
+            setup=setup,
+            teardown=teardown,
+            nontrivial=lambda c, o: C.jdump(c),
+            rule="outside the integer-cM model, judged by the clauses of the property on the .bp text and by haptools' own readers: maps with marker steps of 1e-6 to 1e-4 cM (cM ends below 1e-4 are written in exponent notation) next to ordinary ones, and model rows of repeating decimals cut after seven digits (0.3333333 x 3, 0.1428571 x 7: sums within 1e-7 of 1, accepted by the validator); API and --only_breakpoint",
         ),
     ],
     trusted=["np.random.choice(replace=False) returns distinct in-range indices; np.random.choice(p=fractions) never draws a population with fraction 0", "glob/re discovery of map files", "float repr of cM"],
